@@ -83,7 +83,10 @@ def check_registers(acc, kind, sub, regs_get, ifm_bits, ifm_depth, ofm_hw=None):
     need = required(acc, k, ifm_bits, (eff_bh, bw, bd), ifm_depth, dkh, dkw, sy, sx, regs_get("IFM_UPSCALE"), bool(ks & 4), acc_bits)
     if k != "elementwise" and eff_bh != bh:
         need_ifm = required(acc, k, ifm_bits, (bh, bw, bd), ifm_depth, dkh, dkw, sy, sx, regs_get("IFM_UPSCALE"), bool(ks & 4), acc_bits)
-        need["ifm_banks"] = min(need["ifm_banks"], need_ifm["ifm_banks"])
+        # the accumulators shrink to one row, the IFM buffers do not: the engine still sweeps whole micro-blocks, so the IFM block is the one of
+        # the configured OFM block (with a vertical stride it is taller than the single row suggests)
+        need["ifm_banks"] = need_ifm["ifm_banks"]
+        need["ifm_block"] = need_ifm.get("ifm_block", need.get("ifm_block"))
     if not (ib_start <= ib_end <= ab_start <= lut_start <= banks):
         tags.append("partitions out of order: ib_start=%d ib_end=%d ab_start=%d lut_start=%d banks=%d" % (ib_start, ib_end, ab_start, lut_start, banks))
     if k == "elementwise":
